@@ -12,12 +12,16 @@ def enum_names(thorough):
         for w in itertools.product(alpha, repeat=n):
             out.append("".join(w))
     out += ["GREY_5", "ISO_8601", "X__Y", "PANTONE_2_C", "A_", "VERSION_2", "UNKNOWN", "LONGER_NAME_WITH_WORDS_123", "T" * 70]
+    # names that read as numbers / booleans / non-finite doubles to a lenient key parser
+    out += ["INF", "NAN", "INFINITY", "TRUE", "FALSE", "1E3", "0X10", "123", "007", "NULL", "E"]
     return out
 
 
 ILL_FORMED = ["one", "", " ", "A B", "A-B", "É", "One", "a", "A.B", "A\n", " A", "A "]
 
-PAYLOADS = [None, True, 0, -1.5, -2**63, 2**64 - 1, "NaN", "", "s", [], [1, [2]], {}, {"type": "x"}, {"a": {"b": [None]}}, {"zz": 1}, [None, {"k": "Infinity"}], 1e300]
+PAYLOADS = [None, True, 0, -1.5, -2**63, 2**64 - 1, "NaN", "", "s", [], [1, [2]], {}, {"type": "x"}, {"a": {"b": [None]}}, {"zz": 1}, [None, {"k": "Infinity"}], 1e300,
+            # member names that read as numbers / booleans (a carrier must keep them as the strings they are)
+            {"007": True}, {"1e3": 1, "true": 2, "-0": None}, {"NaN": 1, "Infinity": 2}, {"+1": 1, " 1": 2, "1.0": [{"01": 2}]}, {"18446744073709551616": 0, "1": 1, "01": 2}]
 
 UNLISTED_VARIANTS = ["zz", "Zz", "zzTop", "z_z", "z-z", "a b", "ünï", "", "V" * 70, "unknownVariant"]
 
@@ -210,14 +214,14 @@ def holders(a, rep, tb, tref, leaf_cases):
                 res = dict(res)
                 if "skip" not in sm and not _wide(text):
                     res["C"], res["S"] = sm.get("c"), sm.get("s")
-                for side in ("c", "s", "C", "S"):
+                for side in ("c", "s", "a", "C", "S"):
                     r = res.get(side)
                     if r is None:
                         continue
                     rep.evaluations += 1
                     rep.transitions += 1
                     case = {"type": name, "config": cname, "doc": text, "side": side, "part": "holder"}
-                    where = {"c": "client", "s": "server", "C": "smile-client", "S": "smile-server"}[side]
+                    where = {"c": "client", "s": "server", "a": "any", "C": "smile-client", "S": "smile-server"}[side]
                     sig = lambda k: "C10|holder|%s|%s|%s|%s" % (k, where, label, "exhaustive" if cfg["exhaustive"] else "default")
                     if r.get("panic"):
                         rep.violation(sig("panic"), "%s panicked on %s" % (label, text), case)
@@ -233,7 +237,7 @@ def holders(a, rep, tb, tref, leaf_cases):
                             rep.outcome("holder:unlisted:rejected-when-exhaustive")
                     elif not r["ok"]:
                         rep.violation(sig("%s-rejected" % cls), "%s [%s]: %s (%s %s inside) is rejected (%s): %s" % (label, cname, text, cls, nm, where, r.get("err")), case)
-                    elif side in ("c", "s") and not _json_eq(text, r.get("reser") or "null"):
+                    elif side in ("c", "s", "a") and not _json_eq(text, r.get("reser") or "null"):
                         rep.violation(sig("%s-not-preserved" % cls), "%s [%s]: %s re-serializes to %s (%s)" % (label, cname, text, r.get("reser"), where), case)
                     else:
                         rep.outcome("holder:%s:preserved" % cls)
